@@ -2,6 +2,101 @@
 
 package retention
 
+import (
+	"fmt"
+	"reflect"
+	"sort"
+	"strings"
+)
+
 // VerifHandle runs one retention check exactly as the service loop (services.Base.run) does on a
 // tick: it is the unexported Service.handle. Accessor for the C14 harness (hooks/engine/c14_test.go).
 func (s *Service) VerifHandle() { s.handle() }
+
+// VerifHiddenState renders whatever the service remembers between two checks (every field of Service
+// except the embedded Base, the two collaborators and `index`), by reflection, so that fields a changed
+// tree adds (retry lists, cached responses, ...) are part of the state digest of the harness: a
+// retention run that alters only the service's memory is then not mistaken for a no-op.
+// `index` (the catalogue index of the last refresh, sent back as a staleness guard) is left out: it
+// moves with every refresh and has no effect behind the harness adapter, where a stale answer is an
+// explicit fault (H!1 / H!2), not a function of that number.
+func (s *Service) VerifHiddenState() string {
+	var b strings.Builder
+	v := reflect.ValueOf(s).Elem()
+	t := v.Type()
+	for i := 0; i < v.NumField(); i++ {
+		switch t.Field(i).Name {
+		case "Base", "MetaClient", "Engine", "index":
+			continue
+		}
+		b.WriteString(t.Field(i).Name)
+		b.WriteByte('=')
+		verifRender(&b, v.Field(i), 0)
+		b.WriteByte(';')
+	}
+	return b.String()
+}
+
+func verifRender(b *strings.Builder, v reflect.Value, depth int) {
+	if depth > 8 {
+		b.WriteString("...")
+		return
+	}
+	switch v.Kind() {
+	case reflect.Bool:
+		fmt.Fprintf(b, "%v", v.Bool())
+	case reflect.Int, reflect.Int8, reflect.Int16, reflect.Int32, reflect.Int64:
+		fmt.Fprintf(b, "%d", v.Int())
+	case reflect.Uint, reflect.Uint8, reflect.Uint16, reflect.Uint32, reflect.Uint64, reflect.Uintptr:
+		fmt.Fprintf(b, "%d", v.Uint())
+	case reflect.Float32, reflect.Float64:
+		fmt.Fprintf(b, "%g", v.Float())
+	case reflect.String:
+		fmt.Fprintf(b, "%q", v.String())
+	case reflect.Ptr, reflect.Interface:
+		if v.IsNil() {
+			b.WriteString("nil")
+			return
+		}
+		b.WriteByte('&')
+		verifRender(b, v.Elem(), depth+1)
+	case reflect.Struct:
+		if p := v.Type().PkgPath(); p == "sync" || p == "sync/atomic" || (p == "time" && v.Type().Name() == "Location") {
+			b.WriteString("-")
+			return
+		}
+		b.WriteByte('{')
+		for i := 0; i < v.NumField(); i++ {
+			b.WriteString(v.Type().Field(i).Name)
+			b.WriteByte(':')
+			verifRender(b, v.Field(i), depth+1)
+			b.WriteByte(',')
+		}
+		b.WriteByte('}')
+	case reflect.Slice, reflect.Array:
+		if v.Kind() == reflect.Slice && v.IsNil() {
+			b.WriteString("nil")
+			return
+		}
+		b.WriteByte('[')
+		for i := 0; i < v.Len() && i < 256; i++ {
+			verifRender(b, v.Index(i), depth+1)
+			b.WriteByte(',')
+		}
+		b.WriteByte(']')
+	case reflect.Map:
+		var items []string
+		it := v.MapRange()
+		for it.Next() {
+			var kb strings.Builder
+			verifRender(&kb, it.Key(), depth+1)
+			kb.WriteString("->")
+			verifRender(&kb, it.Value(), depth+1)
+			items = append(items, kb.String())
+		}
+		sort.Strings(items)
+		b.WriteString("map[" + strings.Join(items, ",") + "]")
+	default: // chan, func, unsafe pointer, complex: no state the harness could compare
+		b.WriteString("-")
+	}
+}
